@@ -531,7 +531,8 @@ class HostConnection(object):
             with connection.lock:
                 with self._lock:
                     if connection.orphaned_threshold_reached:
-                        if connection.in_flight == len(connection.orphaned_request_ids):
+                        # after shutdown() nothing looks at the trash again: close instead of parking
+                        if self.is_shutdown or connection.in_flight == len(connection.orphaned_request_ids):
                             connection.close()
                         else:
                             self._trash.add(connection)
@@ -853,7 +854,8 @@ class HostConnectionPool(object):
                 self._connections = new_connections
 
                 with connection.lock:
-                    if connection.in_flight == 0:
+                    # after shutdown() nothing looks at the trash again: close instead of parking
+                    if self.is_shutdown or connection.in_flight == 0:
                         log.debug("Skipping trash and closing unused connection (%s) to %s", id(connection), self.host)
                         connection.close()
 
